@@ -654,6 +654,20 @@ def f_keyword_arguments():
             sorted({'b': 1, 'a': 2}.items(), key=lambda kv: kv[1]), list(_it.chain([1], (2, 3))), list(_it.repeat(5, 2)), divmod(-7, 2), (-7) // 2, (-7) % 4, 7 >> 1, ~5 & 0xff)
 
 
+def f_lazy_streams():
+    import itertools as _it
+    evens = filter(lambda x: x % 2 == 0, (x * 3 for x in _it.count(1)))
+    first = next(evens)
+    second = next(evens)
+    sq = map(lambda x: x * x, _it.count(5, 2))
+    g = (x for x in [1, 2, 3])
+    a = next(g)
+    rest = list(g)
+    again = list(g)
+    m = map(str, iter([1, 2]))
+    return first, second, next(sq), next(sq), list(_it.islice(_it.count(10, 5), 3)), a, rest, again, next(m), list(m), next(iter([]), 'dflt'), next((x for x in _it.count() if x * x > 50))
+
+
 def f_str_bits():
     s = bin(0b101101)[2:]
     return s, s.zfill(8), int(s[::-1], 2), s.count('1'), s.rfind('1'), s[:3] + '0' * 2, '{:08b}'.format(5), f'{5:08b}'[-3:], ''.join('1' if c == '0' else '0' for c in s)
